@@ -3,15 +3,19 @@
    steps only), once without and once with a formatter, one JSON line per table holding the table and what the
    property (Part 1 of Numberify, in its generative form) accepts as output:
      descs  the set of acceptable output descriptions; an item is <<name, type, input column, currency | "">>
-     cells  per row and amount-like input column the pairs <<currency, set of acceptable cells>> (<<>> = NULL) *)
+     cells  per row and amount-like input column the pairs <<currency, set of acceptable cells>> (<<>> = NULL)
+   The formatter is given as the display context it is to be built from (dc) and the precision setting it is to
+   be built for (prec); q are its display precisions (FormatterQ). *)
 EXTENDS MC_Numberify, Json
 
-QABC == << <<"AAA", 0>>, <<"BBB", 1>>, <<"CCC", 2>> >>
+\* the shell route: the display context is the one the loader infers from the ledger text, of which only the most
+\* common numbers of digits are pinned (the shell builds its formatter with the defaults)
+DCABC == << <<"AAA", 0, 0>>, <<"BBB", 1, 1>>, <<"CCC", 2, 2>> >>
 
 GNext == AddRow
 Emit ==
     pc = "input" =>
-        PrintT(ToJson([cols |-> tbl.cols, rows |-> tbl.rows, fmt |-> fmt, q |-> Q, shape |-> gen.id,
+        PrintT(ToJson([cols |-> tbl.cols, rows |-> tbl.rows, fmt |-> fmt, q |-> Q, dc |-> DCtx, prec |-> Prec, shape |-> gen.id,
                        descs |-> AcceptDescs(tbl.cols, tbl.rows, NCols),
                        cells |-> ExpectCells(tbl.cols, tbl.rows, fmt, Q)]))
 =============================================================================
